@@ -135,7 +135,6 @@ impl<E: FieldElement<BaseField = Felt>> AuxColumnBuilder<E> for BusColumnBuilder
             debug_assert_eq!(selector1, ONE);
             debug_assert_eq!(selector2, ONE);
             build_kernel_chiplet_responses(main_trace, row, selector4, alphas)
-                * build_kernel_procedure_table_responses(main_trace, row, alphas)
         } else {
             debug_assert_eq!(selector0, ONE);
             debug_assert_eq!(selector1, ONE);
@@ -939,29 +938,6 @@ where
         + alphas[5].mul_base(root3);
 
     v.mul_base(kernel_chiplet_selector) + E::from(ONE - kernel_chiplet_selector)
-}
-
-/// Builds the response from the kernel procedure table at `row`.
-fn build_kernel_procedure_table_responses<E>(main_trace: &MainTrace, row: usize, alphas: &[E]) -> E
-where
-    E: FieldElement<BaseField = Felt>,
-{
-    let addr = main_trace.chiplet_kernel_addr(row);
-    let addr_nxt = main_trace.chiplet_kernel_addr(row + 1);
-    let addr_delta = addr_nxt - addr;
-    let root0 = main_trace.chiplet_kernel_root_0(row);
-    let root1 = main_trace.chiplet_kernel_root_1(row);
-    let root2 = main_trace.chiplet_kernel_root_2(row);
-    let root3 = main_trace.chiplet_kernel_root_3(row);
-
-    let v = alphas[0]
-        + alphas[1].mul_base(addr)
-        + alphas[2].mul_base(root0)
-        + alphas[3].mul_base(root1)
-        + alphas[4].mul_base(root2)
-        + alphas[5].mul_base(root3);
-
-    v.mul_base(addr_delta) + E::from(ONE - addr_delta)
 }
 
 // HELPER FUNCTIONS
